@@ -238,7 +238,7 @@ func caseLines(o *outcome) []string {
 	if c.Mode == "rm" || (c.Mode == "pctx" && c.Mgr != "rcm") {
 		begin = "begin mode=rm"
 	} else if c.Grace != "none" && c.Grace != "" && c.Mode == "rcm" {
-		begin += fmt.Sprintf(" grace=%d", graceUnits)
+		begin += fmt.Sprintf(" grace=%d", c.gUnits())
 	} else {
 		begin += " grace=none"
 	}
@@ -308,6 +308,12 @@ func (rn *runner) one(c Case, d *lib.Drv) {
 	if c.Mode != "rm" {
 		res.Hit(fmt.Sprintf("closers:%d", len(c.Closers)))
 		res.Hit("grace:" + c.Grace)
+		if c.GraceVal != "" {
+			res.Hit("grace-value:" + c.GraceVal + "/" + c.Grace)
+			if has(o.Log, "fatal", 0) {
+				res.Hit("grace-value-fired:" + c.GraceVal)
+			}
+		}
 		if c.RealClock {
 			res.Hit("real-clock:" + c.Grace)
 		}
@@ -524,8 +530,14 @@ func main() {
 		})
 	}
 	for i := 0; i < nRandom; i++ {
-		add(genRandom(r.Fork()))
+		c := genRandom(r.Fork())
+		if i%4 == 3 { // every family that involves the fatal action also runs with boundary grace periods
+			c = withBoundaryGrace(c, lib.NewRand(f.Seed*977+uint64(i)))
+		}
+		add(c)
 	}
+	// boundary grace periods (gracebd.go): nil / negative / zero / 1 ns / … / MaxInt64, directed
+	enumGraceBd(add)
 	// caller's-context family (pctx.go): the context given to Run is cancelled / expires / carries a
 	// cause before, while and after the runners return; returned values of every Canceled /
 	// DeadlineExceeded flavour. Quick: a third of the directed product (by seed) + samples.
@@ -562,6 +574,9 @@ func main() {
 		c.Grace = []string{"none", "generous", "exceeded"}[i%3]
 		c.TickAt = rr.Intn(len(c.Closers))
 		c.LateClosers = 0
+		if i%5 == 4 {
+			c = withBoundaryGrace(c, lib.NewRand(f.Seed*313+uint64(i)))
+		}
 		add(c)
 		i++
 	}
